@@ -656,15 +656,18 @@ def parse_module(text):
                 continue
             # join continuation lines
             full = s
-            while i < n:
-                nx = lines[i].strip()
-                if re.match(r'^(to label|catch |cleanup|filter )', nx) or \
-                   (full.startswith('switch') or ' = phi ' in full and False) and not full.rstrip().endswith(']') and ' [' in full:
-                    full += ' ' + nx; i += 1
-                elif full.startswith('switch') and not re.search(r'\]\s*(,.*)?$', full):
-                    full += ' ' + nx; i += 1
-                else:
-                    break
+            if full.startswith('switch') and not full.rstrip().endswith(']') and not re.search(r'\]\s*,', full):
+                while i < n:
+                    nx = lines[i].strip(); i += 1
+                    full += ' ' + nx
+                    if nx.startswith(']'): break
+            else:
+                while i < n:
+                    nx = lines[i].strip()
+                    if re.match(r'^(to label|catch |cleanup|filter )', nx):
+                        full += ' ' + nx; i += 1
+                    else:
+                        break
             toks = lex(full)
             if not toks: continue
             if blk is None:
